@@ -52,12 +52,14 @@ for pid in sorted(d for d in os.listdir(TH) if re.fullmatch(r"C\d\d", d)):
                     executed.add(c); changed = True
     neither = sorted(set(defs) - reached - executed)
     only_exec = sorted(executed - reached)
-    rows.append((pid, len(defs), len(reached), len(only_exec), len(neither), only_exec, neither))
-print("| property | model definitions | reached by a theorem | executed by the correspondence only | neither |")
-print("|---|---|---|---|---|")
+    not_exec = sorted(reached - executed)
+    rows.append((pid, len(defs), len(reached), len(only_exec), len(neither), only_exec, neither, not_exec))
+print("| property | model definitions | reached by a theorem | executed by the correspondence only | neither | reached by a theorem but never executed against the code |")
+print("|---|---|---|---|---|---|")
 for r in rows:
-    print("| %s | %d | %d | %d | %d |" % r[:5])
+    print("| %s | %d | %d | %d | %d | %d |" % (r[:5] + (len(r[7]),)))
 if "-v" in sys.argv:
     for r in rows:
         print("\n%s executed-only: %s" % (r[0], ", ".join(r[5])))
         print("%s neither: %s" % (r[0], ", ".join(r[6])))
+        print("%s theorem-only (not executed): %s" % (r[0], ", ".join(r[7])))
